@@ -22,7 +22,9 @@ func rulesC04(c *Ctx, r *Report) {
 	rulesBedParserColumns(c, r)
 	rulesNoCsv(c, r, "formats/bed", []string{"Reader", "File"}, "(*BED).Write")
 	rulesWholeLines(c, r, "formats/bed")
+	r.floor("G5-lines", rulesLineChain(c, r, "formats/bed"), 1, "ReadString line reader of bed")
 	rulesPassAllFor(c, r, "formats/bed", 2)
+	rulesNoBufferedPkg(c, r, "formats/bed")
 }
 
 var bedFields = []string{"N", "Chrom", "ChromStart", "ChromEnd", "Name", "Score", "Strand", "ThickStart", "ThickEnd", "ItemRGB", "BlockCount", "BlockSizes", "BlockStarts"}
@@ -153,30 +155,41 @@ func rulesBedWriterLadder(c *Ctx, r *Report) {
 	}
 	// list-element writes must sit in a loop over all elements of the field — checked by label only ([*] = range element)
 	// refusal outside 3..12
-	for _, N := range []int64{2, 13} {
-		var enabled []string
-		for _, fc := range calls {
-			if in[fc.site.Block()][N] {
-				enabled = append(enabled, c.pos(fc.call.Pos()))
-			}
+	var outside []int64
+	seenN := map[int64]bool{}
+	for _, N := range dom {
+		if (N < 3 || N > 12) && !seenN[N] {
+			seenN[N] = true
+			outside = append(outside, N)
 		}
+	}
+	sort.Slice(outside, func(i, j int) bool { return outside[i] < outside[j] })
+	for _, side := range []string{"N < 3", "N > 12"} {
+		var enabled, badVals []string
 		okRet := true
 		nRet := 0
-		instrs(w, func(ins ssa.Instruction) {
-			if rt, ok := ins.(*ssa.Return); ok && in[rt.Block()][N] {
-				nRet++
-				if !definitelyNonNilErr(retOperands(rt)[0]) {
-					okRet = false
+		for _, N := range outside {
+			if (side == "N < 3") != (N < 3) {
+				continue
+			}
+			for _, fc := range calls {
+				if in[fc.site.Block()][N] {
+					enabled = append(enabled, fmt.Sprintf("N=%d: %s", N, c.pos(fc.call.Pos())))
 				}
 			}
-		})
-		desc := "N < 3"
-		if N == 13 {
-			desc = "N > 12"
+			instrs(w, func(ins ssa.Instruction) {
+				if rt, ok := ins.(*ssa.Return); ok && in[rt.Block()][N] {
+					nRet++
+					if !definitelyNonNilErr(retOperands(rt)[0]) {
+						okRet = false
+						badVals = append(badVals, fmt.Sprint(N))
+					}
+				}
+			})
 		}
-		r.check(len(enabled) == 0 && okRet && nRet > 0, "G4a", where, "refuses "+desc, c.pos(w.Pos()),
-			"with "+desc+" no write is enabled and every reachable return carries a constructed error: emits nothing",
-			fmt.Sprintf("with %s: writes enabled at %v, all reachable returns carry an error: %v", desc, enabled, okRet))
+		r.check(len(enabled) == 0 && okRet && nRet > 0, "G4a", where, "refuses "+side, c.pos(w.Pos()),
+			"for every representative value with "+side+" (the boundary value and every constant N is compared with, with its neighbours) no write is enabled and every reachable return carries a constructed error: emits nothing",
+			fmt.Sprintf("with %s: writes enabled at %v; values of N reaching a return without an error: %v", side, enabled, uniq(badVals)))
 	}
 	// per N
 	want := func(N int64) string {
@@ -273,6 +286,7 @@ func rulesBedParserColumns(c *Ctx, r *Report) {
 	}
 	cols := map[int]map[int64]bool{}
 	others := map[int][]string{}
+	storeBlocks := map[int][]*ssa.BasicBlock{}
 	nLen := false
 	var walkAddr func(addr ssa.Value, field int)
 	walkAddr = func(addr ssa.Value, field int) {
@@ -293,6 +307,7 @@ func rulesBedParserColumns(c *Ctx, r *Report) {
 				if cols[field] == nil {
 					cols[field] = map[int64]bool{}
 				}
+				storeBlocks[field] = append(storeBlocks[field], x.Block())
 				var oth []string
 				columnsOf(x.Val, padded, map[ssa.Value]bool{}, cols[field], &oth)
 				others[field] = append(others[field], oth...)
@@ -326,6 +341,63 @@ func rulesBedParserColumns(c *Ctx, r *Report) {
 			fmt.Sprintf("%s is computed from column %d only — the column the writer puts it in", bedFields[j], j-1),
 			fmt.Sprintf("%s is computed from column(s) [%s] %v, want exactly column %d: writer and parser disagree on where the field lives", bedFields[j], strings.Join(got, ","), others[j], j-1))
 	}
+	// the presence guard of an optional field tests the field's own column
+	emptyTestColumn := func(cond ssa.Value) (int64, bool) {
+		b, ok := cond.(*ssa.BinOp)
+		if !ok || (b.Op != token.NEQ && b.Op != token.EQL) {
+			return 0, false
+		}
+		x, y := b.X, b.Y
+		if str, ok := constStr(x); ok && str == "" {
+			x, y = y, x
+		}
+		if str, ok := constStr(y); !ok || str != "" {
+			return 0, false
+		}
+		ld, ok := x.(*ssa.UnOp)
+		if !ok || ld.Op != token.MUL {
+			return 0, false
+		}
+		ia, ok := ld.X.(*ssa.IndexAddr)
+		if !ok || ia.X != padded {
+			return 0, false
+		}
+		return cInt(constVal(ia.Index))
+	}
+	nGuards := 0
+	for j := 1; j <= 12; j++ {
+		guardCols := map[int64]bool{}
+		for _, sb := range storeBlocks[j] {
+			for _, b := range f.Blocks {
+				iff, ok := lastInstr(b).(*ssa.If)
+				if !ok || !b.Dominates(sb) {
+					continue
+				}
+				k, ok := emptyTestColumn(iff.Cond)
+				if !ok {
+					continue
+				}
+				for _, su := range b.Succs {
+					if len(su.Preds) == 1 && su.Dominates(sb) {
+						guardCols[k] = true
+					}
+				}
+			}
+		}
+		if len(guardCols) == 0 {
+			continue
+		}
+		nGuards++
+		var got []string
+		for k := range guardCols {
+			got = append(got, fmt.Sprint(k))
+		}
+		sort.Strings(got)
+		r.check(len(guardCols) == 1 && guardCols[int64(j-1)], "G4b", where, "presence guard of "+bedFields[j], c.pos(rec.Pos()),
+			fmt.Sprintf("the store into %s is controlled by the emptiness test of column %d, its own column", bedFields[j], j-1),
+			fmt.Sprintf("the store into %s is controlled by the emptiness test of column(s) [%s], not of its own column %d: the field is parsed or skipped depending on a different column", bedFields[j], strings.Join(got, ","), j-1))
+	}
+	r.floor("G4b-guard", nGuards, 4, "optional numeric/list fields whose parse is guarded by a non-empty test")
 	// accepting return only with 3..12 fields
 	isLen := func(v ssa.Value) bool { return s.expr(v).String() == "builtin:len(P0)" }
 	in := partitionFlow(f, isLen, []int64{0, 1, 2, 3, 4, 5, 6, 7, 8, 9, 10, 11, 12, 13, 14})
